@@ -113,7 +113,7 @@ class C05(Sim):
             "interleaving hash); non-trivial = at least one accepted write and one container growth with an attribute alive")
     FAULT_KINDS = ["reject"]
     PROBES = ["index==size", "mutate_default", "extend_by_container", "rejected_write", "read_default", "grow_with_dense",
-              "attr_clear", "container_clear", "widening_write", "vector_attr", "custom_default", "corner_container", "copy_entry", "big_int"]
+              "attr_clear", "container_clear", "widening_write", "vector_attr", "custom_default", "corner_container", "copy_entry", "big_int", "first_use_is_mutation"]
     QUICK_RUNS = 8000
     THOROUGH_RUNS = 1500000
     BLOCK = 100
@@ -139,7 +139,10 @@ class C05(Sim):
             clients.append("reader")
         return {"conts": conts, "clients": clients, "max_steps": rng.randint(6, 40), "burst": rng.choice([0.2, 0.5, 0.8]),
                 "inv_every": rng.choice([1, 2, 4]), "types": rng.subset(TYPES, 0.6, at_least=1),
-                "max_arity": rng.choice([1, 2, 3, 4]), "reject_w": rng.choice([0.5, 1.0, 2.0])}
+                "max_arity": rng.choice([1, 2, 3, 4]), "reject_w": rng.choice([0.5, 1.0, 2.0]),
+                # 'lazy': no read right after a creation, so that the FIRST use of a fresh attribute can be any operation (e.g. reading an unset
+                # entry and changing the value obtained)
+                "lazy": rng.chance(0.4)}
 
     def shrink_cfgs(self, cfg):
         if len(cfg["conts"]) > 1:
@@ -179,6 +182,7 @@ class C05(Sim):
         self.grown = 0
         self.opkinds = set()
         self.attrkinds = set()
+        self._fresh_attr = None
 
     # ------------------------------------------------------------------ value generation
     def _gen_scalar(self, r, t):
@@ -230,6 +234,11 @@ class C05(Sim):
         if nattr == 0 or (c == "admin" and r.chance(0.5) and nattr < 6):
             return self._prop_create(r, c)
         ka = self._pick_attr(r)
+        fresh = getattr(self, "_fresh_attr", None)
+        if fresh is not None and fresh[1] in self.refs[fresh[0]].attrs and r.chance(0.7):
+            ka = fresh
+            if c in ("reader", "admin") and r.chance(0.7):
+                c = "writer"
         k, name = ka
         ref = self.refs[k]
         a = ref.attrs[name]
@@ -550,6 +559,9 @@ class C05(Sim):
             tw = s if ev["twin"] == "s" else d
             if i not in a.data:
                 self.probes["mutate_default"] += 1
+            if getattr(self, "_fresh_attr", None) == (k, ev["name"]):
+                self.probes["first_use_is_mutation"] += 1
+                self._fresh_attr = None
             o = call(tw.__getitem__, i)
             if not o.ok:
                 self.exc_violation("total-map", op, o, ev["twin"])
@@ -695,8 +707,14 @@ class C05(Sim):
             check = True
         else:
             raise ValueError("unknown op %r" % (op,))
+        if op == "create" and self.cfg.get("lazy"):
+            self._fresh_attr = (k, ev["name"])
+            return res
+        if check and self.cfg.get("lazy") and getattr(self, "_fresh_attr", None) is not None and op in ("append", "extend", "extendc"):
+            return res  # (growth before the first use of the fresh attribute: still no read)
         if check and (rejected or op in ("append", "extend", "extendc", "scan", "cclear", "aclear", "create") or
                       self._step_no % self.cfg["inv_every"] == 0):
+            self._fresh_attr = None
             self._check_state(op, rejected)
         return res
 
